@@ -89,6 +89,15 @@ class Destinations(object):
 
         @param logger: The ``ILogger`` that wrote the message, if any.
         """
+        self._report(message, self._deliver(message), logger)
+
+    def _deliver(self, message):
+        """
+        Call every destination with the message.
+
+        @return: The exceptions raised by destinations that should be
+            reported, as a L{list}.
+        """
         message.update(self._globalFields)
         errors = []
         is_destination_error_message = (
@@ -104,7 +113,13 @@ class Destinations(object):
                 # want to ensure it doesn't do infinite recursion.
                 if not is_destination_error_message:
                     errors.append(e)
+        return errors
 
+    def _report(self, message, errors, logger=None):
+        """
+        Log a C{eliot:destination_failure} message for each exception a
+        destination raised when given the message.
+        """
         for exception in errors:
             from ._action import log_message
 
@@ -146,9 +161,14 @@ class Destinations(object):
             # the buffer or the new destinations, never an empty list:
             self._destinations = list(destinations)
             with buffer._lock:
-                # Re-deliver buffered messages:
-                for message in buffer.messages:
-                    self.send(message)
+                # Re-deliver buffered messages. Failures are reported only
+                # once all of them have been delivered, so that the reports
+                # (which are newer messages) don't overtake older ones:
+                failures = [
+                    (message, self._deliver(message)) for message in buffer.messages
+                ]
+                for message, errors in failures:
+                    self._report(message, errors)
                 buffer._forward = self.send
         else:
             self._destinations.extend(destinations)
